@@ -56,12 +56,24 @@ def BOUNDS(tier):
 
 
 def jobs(tier):
+    import itertools
     out = []
     for opt in OPTIONS:
         for mv in ("1",) if (tier == "quick" and opt not in ("web-seed", "comment")) else ("1", "3"):
             out.append(("route.%s.v%s" % (opt, mv), "job_route", dict(opt=opt, mv=mv)))
     for mv in ("1", "3"):
         out.append(("out-inside-content.v%s" % mv, "job_out_inside", dict(mv=mv)))
+    # subsets of options in one request (pairs: all in the thorough tier, a seed-rotated handful in the quick tier; one
+    # request carrying every option)
+    names = [o for o in OPTIONS if o not in ("tracker", "out-dir", "out-relative")]
+    pairs = [list(p) for p in itertools.combinations(names, 2)]
+    if tier == "quick":
+        seed = int(os.environ.get("VERIF_SEED", "0") or 0)
+        pairs = [pairs[(seed * 6 * 5 + i * 9) % len(pairs)] for i in range(6)]
+    for i, pr in enumerate(pairs):
+        out.append(("subset.%s" % "+".join(pr), "job_subset", dict(opts=pr, mv="1" if i % 2 else "3")))
+    out.append(("subset.all.v1", "job_subset", dict(opts=[o for o in names if o != "meta-version"], mv="1")))
+    out.append(("subset.all.v2", "job_subset", dict(opts=[o for o in names if o not in ("meta-version", "align")], mv="2")))
     for mv in ("1", "2"):
         out.append(("config-rewritten-between-creates.v%s" % mv, "job_config_twice", dict(mv=mv, twice=True)))
     import itertools
@@ -275,6 +287,99 @@ def job_out_inside(E, mv, _mutants=None):
         E.witnesses.setdefault(k_, True)
 
 
+def _value(opt, tag):
+    kind = OPTIONS[opt][3]
+    if kind == "list":
+        return [OStr("%s.v0" % tag, nonempty=True), OStr("%s.v1" % tag, nonempty=True)]
+    if kind == "str":
+        return OStr("%s.v" % tag, nonempty=True)
+    if kind == "flag":
+        return True
+    return kind.split(":", 1)[1]
+
+
+def job_subset(E, opts, mv, _mutants=None):
+    """Several options in one request: keyword, flag and configuration-file routes give the same metafile."""
+    values = {o: _value(o, o) for o in opts}
+    outfile = values.get("out", "/out/x.torrent")
+    metas = {}
+    # keyword route
+    fs, s = mkfs(E)
+    w = World(fs, mutants=_mutants)
+    kwargs = dict(path="/data/name", outfile=outfile, meta_version=mv, progress=0)
+    for o in opts:
+        kwargs[OPTIONS[o][2]] = values[o]
+    try:
+        T = w.mod("torrent")
+        t = T.TorrentFile(**kwargs) if kwargs.get("meta_version") == "1" else T.TorrentAssembler(**kwargs)
+        o_, m = t.write()
+        metas["keyword"] = m
+    except Unsupported:
+        raise
+    except Exception as ex:  # noqa: BLE001
+        E.fail("C20.subset.keyword.no-exception", "%s: %s" % (type(ex).__name__, ex))
+        return
+    # flag route: the contract of every flag learnt separately from the real parser, then combined
+    fs, _ = mkfs(E)
+    w = World(fs, mutants=_mutants)
+    ns = None
+    try:
+        for o in opts:
+            flag, ckey, kw, kind = OPTIONS[o]
+            v = values[o]
+            n = len(v) if isinstance(v, list) else (0 if kind == "flag" else 1)
+            base, diff, sent = learn_contract(w, flag, n, [v] if kind.startswith("value:") else None)
+            if ns is None:
+                ns = dict(base)
+            for k, dv in diff.items():
+                if isinstance(dv, list):
+                    ns[k] = [(v[sent.index(x)] if isinstance(v, list) else v) if x in sent else x for x in dv]
+                elif dv in sent:
+                    ns[k] = v[0] if isinstance(v, list) else v
+                else:
+                    ns[k] = dv
+    except SystemExit as ex:
+        E.fail("C20.subset.flag.parser-accepts", str(ex))
+        return
+    if "meta-version" not in opts:
+        ns["meta_version"] = mv
+    ns["progress"] = "0"
+    m = run_create(E, w, types.SimpleNamespace(**ns), "C20.subset.flag")
+    if m is None:
+        return
+    metas["flag"] = m
+    # configuration file route
+    fs, _ = mkfs(E)
+    cfg = {}
+    for o in opts:
+        flag, ckey, kw, kind = OPTIONS[o]
+        v = values[o]
+        if kind == "list":
+            c = OStr("cfg.%s" % o, nonempty=True)
+            c._split["\n"] = [OStr("cfg.%s.lead" % o, nonempty=False)] + list(v)
+            cfg[ckey] = c
+        elif kind == "flag":
+            cfg[ckey] = "true"
+        else:
+            cfg[ckey] = v
+    fs.add_token("/cfg/t.ini", ("INI", {"config": cfg}))
+    w = World(fs, mutants=_mutants)
+    ns2 = dict(base)
+    ns2.update(config=True, config_path="/cfg/t.ini", progress="0")
+    if "meta-version" not in opts:
+        ns2["meta_version"] = mv
+    m = run_create(E, w, types.SimpleNamespace(**ns2), "C20.subset.config")
+    if m is None:
+        return
+    metas["config"] = m
+    k = strip(metas["keyword"])
+    for route in ("flag", "config"):
+        E.check(ben_equal(strip(metas[route]), k, ordered=False), "C20.subset.%s-equals-keyword" % route,
+                "options %r: %s route gives %s, keyword route gives %s" % (opts, route, _brief(metas[route]), _brief(metas["keyword"])))
+    for k_ in WITNESSES:
+        E.witnesses.setdefault(k_, True)
+
+
 def job_config_twice(E, mv, twice=True, _mutants=None):
     """Two creates by one process through the same configuration file path, the file rewritten in between: the second
     metafile carries the second file's options (what the equivalent keywords give)."""
@@ -341,6 +446,68 @@ def job_swallow(E, order, nvals, _mutants=None):
 
 # ------------------------------------------------------------------ concrete replay
 
+def _replay_subset(params, model, workdir, data, out, T, run_cli, norm):
+    import io
+    import contextlib
+    opts, mv = params["opts"], params["mv"]
+    conc = {}
+    for o in opts:
+        kind = OPTIONS[o][3]
+        if kind == "list":
+            conc[o] = ["http://%s/0" % o, "http://%s/1" % o]
+        elif kind == "str":
+            conc[o] = "true" if int(model.get("%s.v.is[lower:true]" % o, 0)) else ("2024" if int(model.get("%s.v.isdigit" % o, 0)) else "some %s value" % o)
+        elif kind == "flag":
+            conc[o] = True
+        else:
+            conc[o] = kind.split(":", 1)[1]
+    if "out" in conc:
+        conc["out"] = os.path.join(out, "other.torrent")
+    kwargs = dict(path=data, outfile=conc.get("out", os.path.join(out, "k.torrent")), meta_version=mv, progress=0)
+    for o in opts:
+        kwargs[OPTIONS[o][2]] = conc[o]
+    bad = []
+    try:
+        with contextlib.redirect_stdout(io.StringIO()):
+            t = T.TorrentFile(**kwargs) if kwargs.get("meta_version") == "1" else T.TorrentAssembler(**kwargs)
+            t.write()
+    except BaseException as ex:  # noqa: BLE001
+        return ["C20.subset.keyword.no-exception: %r" % (ex,)]
+    km = norm(t.meta)
+    argv = ["create", "--prog", "0"]
+    if "out" not in opts:
+        argv += ["-o", os.path.join(out, "f.torrent")]
+    if "meta-version" not in opts:
+        argv += ["--meta-version", mv]
+    argv += [data]
+    for o in opts:
+        v = conc[o]
+        argv += [OPTIONS[o][0]] + (v if isinstance(v, list) else ([] if v is True else [v]))
+    try:
+        if norm(run_cli(argv).meta) != km:
+            bad.append("C20.subset.flag-equals-keyword")
+    except BaseException as ex:  # noqa: BLE001
+        bad.append("C20.subset.flag.no-exception: %r" % (ex,))
+    ini = os.path.join(workdir, "t.ini")
+    with open(ini, "w") as f:
+        f.write("[config]\n")
+        for o in opts:
+            v = conc[o]
+            f.write("%s = %s\n" % (OPTIONS[o][1], ("\n    " + "\n    ".join(v)) if isinstance(v, list) else ("true" if v is True else v)))
+    argv = ["create", "--prog", "0", "--config", "--config-path", ini]
+    if "out" not in opts:
+        argv += ["-o", os.path.join(out, "c.torrent")]
+    if "meta-version" not in opts:
+        argv += ["--meta-version", mv]
+    argv += [data]
+    try:
+        if norm(run_cli(argv).meta) != km:
+            bad.append("C20.subset.config-equals-keyword")
+    except BaseException as ex:  # noqa: BLE001
+        bad.append("C20.subset.config.no-exception: %r" % (ex,))
+    return bad
+
+
 def replay(params, model, notes, workdir, seed):
     import io
     import contextlib
@@ -393,6 +560,8 @@ def replay(params, model, notes, workdir, seed):
                 except BaseException as ex:  # noqa: BLE001
                     return ["C20.out-inside.no-exception: %r" % (ex,)]
             return [("C20.out-inside.%s-equals-keyword" % r) for r in ("flag", "config") if ms[r] != ms["keyword"]]
+        if "opts" in params:
+            return _replay_subset(params, model, workdir, data, out, T, run_cli, norm)
         if params.get("twice"):
             mv = params["mv"]
             ini = os.path.join(workdir, "t.ini")
